@@ -29,12 +29,15 @@ def render(mn: str, shape: str, sfx: str, val: int, case: str, ctxt: str) -> str
         lit = "opv"
     elif ctxt == "expr":
         lit = f"{lit}+1-1" if val > 0 else f"{lit}+0"
-    elif ctxt == "dec":
+    elif ctxt in ("dec", "decnonl"):
         lit = str(val)
+    elif ctxt == "paren":
+        # a direct operand whose text starts with a parenthesised group followed by an operator
+        lit = f"({lit}+1)-1"
     f = SHAPE_FMT[shape]
     ins = f.format(mn=mn.upper() if up else mn, sfx=("." + (sfx.upper() if up else sfx)) if sfx else "",
                    v=lit, x="X" if up else "x", y="Y" if up else "y", s="S" if up else "s")
-    return f"*=0x008000\n{pre}{ins}\n"
+    return f"*=0x008000\n{pre}{ins}" + ("" if ctxt in ("nonl", "decnonl") else "\n")
 
 
 def build_records(ctx, cases, cases_ctxts):
@@ -43,7 +46,9 @@ def build_records(ctx, cases, cases_ctxts):
         sfxs = sorted(c["sfxs"])
         vals = sorted(c["vals"])
         for case, ctxt in cases_ctxts:
-            if c["shape"] == "imp" and ctxt != "lit":
+            if c["shape"] == "imp" and ctxt not in ("lit", "nonl"):
+                continue
+            if ctxt == "paren" and c["shape"] not in ("dir", "dirx", "diry", "dirs", "dirxy"):
                 continue
             runs = [(s, v) for s in sfxs for v in vals]
             items.append({"items": [{"src": render(c["mn"], c["shape"], s, v, case, ctxt)} for s, v in runs]})
@@ -95,7 +100,7 @@ def run(ctx) -> None:
                        "relative branches in the `mn e` shape are judged by C05"]
     design_level(ctx)
     cases = gen_cases(ctx)
-    cc = [("lower", "lit"), ("upper", "lit")]
+    cc = [("lower", "lit"), ("upper", "lit"), ("lower", "paren"), ("lower", "nonl"), ("lower", "decnonl")]
     if not ctx.quick:
         cc += [("lower", "const"), ("lower", "expr"), ("lower", "dec"), ("upper", "const")]
     recs = observe(ctx, cases, cc)
@@ -117,7 +122,7 @@ def run(ctx) -> None:
                              any(ff["w"] == f["w"] for ff in x["fails"]) for x in rejects)
             if r["case"] == "upper" and not lower_also:
                 key += "/upper"
-            if r["ctxt"] != "lit" and not lower_also:
+            if r["ctxt"] != "lit" and not any(x["id"] == f"{r['mn']}/{r['shape']}/lower/lit" and any(ff["w"] == f["w"] for ff in x["fails"]) for x in rejects):
                 key += f"/{r['ctxt']}"
             src = render(r["mn"], r["shape"], f["sfx"], f["val"], r["case"], r["ctxt"])
             obs = next(x for x in r["runs"] if x["sfx"] == f["sfx"] and x["val"] == f["val"])
